@@ -14,7 +14,7 @@ TECH = {
             "Every element path of every generated resource (all 146 types reachable) is evaluated in five spellings and compared node-for-node with the JSON tree; negative programs check mismatching roots and non-element names."),
     "C03": ("rapid-generated programs x resources x aliasing variables; before/after oracle: deterministic proto serialisation, slice headers and sentinel-filled spare capacity, expression fingerprint, own-node rule",
             "Mutation is detected by comparing complete snapshots of every input before and after each evaluation, including spare slice capacity."),
-    "C04": ("generated goroutine histories under the Go race detector + sequential-baseline comparison; rapid state machine over Compile histories; TZ/OverrideTime metamorphic checks",
+    "C04": ("generated goroutine histories under the Go race detector + sequential-baseline comparison; rapid state machine over Compile histories; TZ/OverrideTime metamorphic checks; retained-result, in-place-edit and colliding-key (hash-collision pairs) histories",
             "The race detector and a sequential baseline judge generated concurrent histories; the scheduler itself is not controlled, so only interleavings that occur are judged."),
     "C05": ("value-pool pairs/triples (exhaustive over the pool in thorough) against a reference comparison model plus relational laws (symmetry, negation, trichotomy, transitivity)",
             "Model agreement on the type pairs the statement covers; relational laws on all pairs."),
@@ -28,15 +28,15 @@ TECH = {
             "Independent calendar model (no time.AddDate) over the leap cycle, all precisions, offsets and units."),
     "C10": ("rapid-generated collections (resource paths and variables) x criteria x n; list model + metamorphic program pairs evaluated by the library",
             "Model on the item list plus the metamorphic equalities of the statement."),
-    "C11": ("rapid-generated expression trees rendered minimally / fully parenthesised / decorated; differential oracle between renderings, trailing-token rejection, String() round trip",
+    "C11": ("rapid-generated expression trees rendered minimally / fully parenthesised / decorated; differential oracle between renderings, trailing-token rejection, String() round trip; enumerated keyword-named steps in eight spellings; generated long operator/parenthesis/invocation chains",
             "Differential between renderings of one tree; the renderer is self-checked against the real parser."),
     "C12": ("every node of generated resources x type-specifier names; oracle: proto annotations + hand-written R4 hierarchy table",
             "Declared types come from proto annotations, not from the repository's reflection code."),
-    "C13": ("value pool x eight conversion targets (exhaustive) + rapid near-valid strings; relational laws between convertsToT/toT/is and the N1 conversion table",
+    "C13": ("value pool x eight conversion targets (exhaustive) + rapid near-valid strings (+ native go fuzz over strings in thorough); relational laws between convertsToT/toT/is and the N1 conversion table",
             "Relational laws on all items; table agreement only where N1 is unambiguous."),
-    "C14": ("rapid-generated and exhaustively enumerated rune strings x positions x patterns against a []rune reference model; metamorphic programs",
+    "C14": ("rapid-generated and exhaustively enumerated rune strings x positions x patterns (+ native go fuzz in thorough) against a []rune reference model; metamorphic programs",
             "Reference model over Unicode code points; exhaustive for short strings in thorough."),
-    "C15": ("round-trip properties (rapid + exhaustive loops): string escapes, temporal/numeric literals, System<->FHIR primitives, fhir/fhirconv helpers vs google/fhir JSON, integer narrowing vs math/big",
+    "C15": ("round-trip properties (rapid + exhaustive loops; native go fuzz over string literals in thorough): string escapes, temporal/numeric literals, System<->FHIR primitives, fhir/fhirconv helpers vs google/fhir JSON, integer narrowing vs math/big",
             "Five round-trip families; 8/16-bit narrowing enumerated completely."),
     "C16": ("exhaustive enumeration of N1 names u table names x arity 0..4 x option sets; two-sided table oracle, no-arity-error-after-acceptance, characteristic examples",
             "Exhaustive over names x arities."),
